@@ -335,6 +335,7 @@ type tState struct {
 	content []int
 	base    int
 	phase   int
+	coarse  bool // quick tier: the three reopen variants share one residency class and "hashed" counts as "dirty"
 }
 
 func (s *tState) contentKey() uint32 {
@@ -344,9 +345,23 @@ func (s *tState) contentKey() uint32 {
 	}
 	return k
 }
-func (s *tState) key() uint32 { return s.contentKey() | uint32(s.base)<<16 | uint32(s.phase)<<20 }
+func (s *tState) key() uint32 {
+	if s.coarse {
+		if s.base > 2 {
+			s.base = 2
+		}
+		if s.phase > 1 {
+			s.phase = 1
+		}
+	}
+	return s.contentKey() | uint32(s.base)<<16 | uint32(s.phase)<<20
+}
 
 func (s *tState) modeName() string {
+	if s.coarse {
+		s.key()
+		return [...]string{"new", "committed", "reopened"}[s.base] + "/" + [...]string{"clean", "dirty"}[s.phase]
+	}
 	return [...]string{"new", "committed", "reopen1", "reopen2", "reopen3"}[s.base] + "/" + [...]string{"clean", "dirty", "hashed"}[s.phase]
 }
 
@@ -409,6 +424,7 @@ type trieRes struct {
 	key    uint32
 	ckey   uint32
 	root   [32]byte
+	uroot  [32]byte // reference root for the same content
 	class  string
 	shape  string
 	viols  []viol
@@ -416,8 +432,8 @@ type trieRes struct {
 
 func (r *trieRes) digest() string { return core.Hash(r.key, r.root, r.class, r.shape, len(r.viols)) }
 
-func stateOfKey(key uint32, nkeys int) *tState {
-	s := &tState{content: make([]int, nkeys), base: int(key >> 16 & 15), phase: int(key >> 20 & 15)}
+func stateOfKey(key uint32, nkeys int, coarse bool) *tState {
+	s := &tState{content: make([]int, nkeys), base: int(key >> 16 & 15), phase: int(key >> 20 & 15), coarse: coarse}
 	for i := range s.content {
 		s.content[i] = int(key >> (2 * uint(i)) & 3)
 	}
@@ -427,19 +443,26 @@ func stateOfKey(key uint32, nkeys int) *tState {
 type trieDriver struct {
 	part   string // "trie" | "securetrie"
 	secure bool
+	coarse bool
 	keys   [][]byte
 	alpha  []tOp
 	fresh  sync.Map // content key -> [32]byte root of a freshly built in-tree trie
 }
 
-func newTrieDriver(part string) *trieDriver {
-	d := &trieDriver{part: part, secure: part == "securetrie"}
+// newTrieDriver: coarse selects the coarse residency classes; fullAlphabet
+// includes update(k, empty) next to delete(k) (same code path underneath).
+func newTrieDriver(part string, coarse, fullAlphabet bool) *trieDriver {
+	d := &trieDriver{part: part, secure: part == "securetrie", coarse: coarse}
 	if d.secure {
 		d.keys = secureKeys()
 	} else {
 		d.keys = plainKeys()
 	}
-	d.alpha = trieAlphabet(len(d.keys))
+	for _, o := range trieAlphabet(len(d.keys)) {
+		if o.Op != "updempty" || fullAlphabet {
+			d.alpha = append(d.alpha, o)
+		}
+	}
 	return d
 }
 
@@ -498,18 +521,23 @@ func histString(ops []tOp) string {
 	return s
 }
 
-// run executes one history on fresh instances of the in-tree trie and of the
-// reference trie and evaluates the op-level oracle of the last op and the
-// state oracle of the state reached.  It is the only code path (exploration
-// and replay are the same execution).
+// run executes one history on a fresh instance of the in-tree trie and a fresh
+// instance of the reference trie and evaluates the op-level oracle of the last
+// op and the state oracle of the state reached.  It is the only code path
+// (exploration and replay are the same execution).
 //
 // heavy selects the full state oracle (proofs for every key through both
 // verifiers, leaf iteration, root stability under reads); the light oracle
-// (root against the reference trie and against a fresh trie, every Get) is
+// (root against the reference and against a fresh trie, every Get) is
 // evaluated on every execution.  The explorer asks for the heavy oracle on
 // every execution that discovers a new canonical state.
-func (d *trieDriver) run(ops []tOp, heavy bool) (res trieRes) {
-	st := &tState{content: make([]int, len(d.keys))}
+//
+// refRoot, when not nil, is the root the reference trie produced earlier for
+// the same final content (on the history that discovered that content); the
+// reference instance is then not driven again and the in-tree root is compared
+// with *refRoot.  Replay always passes nil (drives the reference itself).
+func (d *trieDriver) run(ops []tOp, heavy bool, refRoot *[32]byte) (res trieRes) {
+	st := &tState{content: make([]int, len(d.keys)), coarse: d.coarse}
 	lastKind := "none"
 	if len(ops) > 0 {
 		lastKind = ops[len(ops)-1].Op
@@ -522,7 +550,16 @@ func (d *trieDriver) run(ops []tOp, heavy bool) (res trieRes) {
 	}
 	var in, up *trieInst
 	panicked, pv, stack := core.Try(func() {
-		in, up = newInTrie(d.secure), newUpTrie(d.secure)
+		in = newInTrie(d.secure)
+		if refRoot == nil {
+			up = newUpTrie(d.secure)
+		}
+		ref := func(r [32]byte, err error) [32]byte { // reference root at the last op
+			if err != nil {
+				core.Fatal("reference trie failed on %q: %v", histString(ops), err)
+			}
+			return r
+		}
 		for i, o := range ops {
 			last := i == len(ops)-1
 			want := trieVals[st.content[o.K]] // value before the op (for get/prove)
@@ -531,83 +568,88 @@ func (d *trieDriver) run(ops []tOp, heavy bool) (res trieRes) {
 			if last {
 				res.class = o.Op + "|" + modeBefore + "|" + eff
 			}
+			key := d.keys[o.K]
 			switch o.Op {
-			case "update":
-				e1, e2 := in.update(d.keys[o.K], trieVals[o.V]), up.update(d.keys[o.K], trieVals[o.V])
-				if e2 != nil {
-					core.Fatal("reference trie update failed: %v", e2)
+			case "update", "updempty":
+				val := trieVals[o.V]
+				if o.Op == "updempty" {
+					val = nil
 				}
-				if e1 != nil && last {
-					bad("op-error", "TryUpdate(k%d) returned %v", o.K, e1)
+				if up != nil {
+					if e2 := up.update(key, val); e2 != nil {
+						core.Fatal("reference trie update failed: %v", e2)
+					}
 				}
-			case "updempty":
-				e1, e2 := in.update(d.keys[o.K], nil), up.update(d.keys[o.K], nil)
-				if e2 != nil {
-					core.Fatal("reference trie update failed: %v", e2)
-				}
-				if e1 != nil && last {
-					bad("op-error", "TryUpdate(k%d, empty) returned %v", o.K, e1)
+				if e1 := in.update(key, val); e1 != nil && last {
+					bad("op-error", "TryUpdate(k%d, %s) returned %v", o.K, short(val), e1)
 				}
 			case "delete":
-				e1, e2 := in.del(d.keys[o.K]), up.del(d.keys[o.K])
-				if e2 != nil {
-					core.Fatal("reference trie delete failed: %v", e2)
+				if up != nil {
+					if e2 := up.del(key); e2 != nil {
+						core.Fatal("reference trie delete failed: %v", e2)
+					}
 				}
-				if e1 != nil && last {
+				if e1 := in.del(key); e1 != nil && last {
 					bad("op-error", "TryDelete(k%d) returned %v", o.K, e1)
 				}
 			case "get":
-				v1, e1 := in.get(d.keys[o.K])
-				v2, e2 := up.get(d.keys[o.K])
-				if e2 != nil || !bytes.Equal(v2, want) {
-					core.Fatal("reference trie get disagrees with the content map: %x %v", v2, e2)
+				if up != nil {
+					if v2, e2 := up.get(key); e2 != nil || !bytes.Equal(v2, want) {
+						core.Fatal("reference trie get disagrees with the content map: %x %v", v2, e2)
+					}
 				}
-				if last && (e1 != nil || !bytes.Equal(v1, want)) {
+				if v1, e1 := in.get(key); last && (e1 != nil || !bytes.Equal(v1, want)) {
 					bad("get-mismatch", "Get(k%d) = %s, %v; content has %s", o.K, short(v1), e1, short(want))
 				}
 			case "prove":
-				up.prove(d.path(d.keys[o.K]), newProofMap())
+				if up != nil {
+					up.prove(d.path(key), newProofMap())
+				}
 				if last {
 					d.checkProof(in, st, o.K, bad)
 				} else {
-					in.prove(d.path(d.keys[o.K]), newProofMap())
+					in.prove(d.path(key), newProofMap())
 				}
 			case "hash":
-				r1, r2 := in.hash(), up.hash()
-				if last && r1 != r2 {
-					bad("root-differs-from-reference", "Hash() = %x, reference %x", r1[:6], r2[:6])
-				}
-			case "commit":
-				r1, e1 := in.commit()
-				r2, e2 := up.commit()
-				if e2 != nil {
-					core.Fatal("reference trie commit failed: %v", e2)
-				}
-				if last {
-					if e1 != nil {
-						bad("op-error", "Commit returned %v", e1)
-					} else if r1 != r2 {
-						bad("root-differs-from-reference", "Commit() = %x, reference %x", r1[:6], r2[:6])
+				r1 := in.hash()
+				if up != nil {
+					if r2 := up.hash(); last && r1 != r2 {
+						bad("root-differs-from-reference", "Hash() = %x, reference %x", r1[:6], r2[:6])
 					}
+				} else if last && r1 != *refRoot {
+					bad("root-differs-from-reference", "Hash() = %x, reference %x", r1[:6], refRoot[:6])
 				}
-			case "reopen":
-				r1, e1 := in.reopen(o.V)
-				r2, e2 := up.reopen(o.V)
-				if e2 != nil {
-					core.Fatal("reference trie reopen failed: %v", e2)
+			case "commit", "reopen":
+				var r1, r2 [32]byte
+				var e1 error
+				if o.Op == "commit" {
+					r1, e1 = in.commit()
+				} else {
+					r1, e1 = in.reopen(o.V)
+				}
+				switch {
+				case up != nil && o.Op == "commit":
+					r2 = ref(up.commit())
+				case up != nil:
+					r2 = ref(up.reopen(o.V))
+				default:
+					r2 = *refRoot // only meaningful (and only used) at the last op
 				}
 				if e1 != nil {
-					if last {
-						bad("reopen-error", "commit+reopen (variant %d) failed: %v", o.V, e1)
+					if last && o.Op == "commit" {
+						bad("op-error", "Commit returned %v", e1)
+					} else if last {
+						bad("reopen-error", "%s failed: %v", o.String(), e1)
 					}
-					return
-				}
-				if last && r1 != r2 {
-					bad("root-differs-from-reference", "committed root %x, reference %x", r1[:6], r2[:6])
+					if o.Op == "reopen" {
+						return // no usable instance any more
+					}
+				} else if last && r1 != r2 {
+					bad("root-differs-from-reference", "%s returned root %x, reference %x", o.String(), r1[:6], r2[:6])
 				}
 			}
 		}
-		d.checkState(in, up, st, &res, heavy, bad)
+		d.checkState(in, up, refRoot, st, &res, heavy, bad)
 	})
 	if panicked {
 		site := core.PanicSite(stack)
@@ -660,11 +702,19 @@ func (d *trieDriver) checkProof(in *trieInst, st *tState, k int, bad func(kind, 
 	}
 }
 
-func (d *trieDriver) checkState(in, up *trieInst, st *tState, res *trieRes, heavy bool, bad func(kind, format string, a ...interface{})) {
-	root, uroot := in.hash(), up.hash()
+func (d *trieDriver) checkState(in, up *trieInst, refRoot *[32]byte, st *tState, res *trieRes, heavy bool, bad func(kind, format string, a ...interface{})) {
+	root := in.hash()
 	res.root = root
-	if root != uroot {
-		bad("root-differs-from-reference", "root %x, reference trie driven by the same history %x", root[:6], uroot[:6])
+	if up != nil {
+		res.uroot = up.hash()
+		if root != res.uroot {
+			bad("root-differs-from-reference", "root %x, reference trie driven by the same history %x", root[:6], res.uroot[:6])
+		}
+	} else {
+		res.uroot = *refRoot
+		if root != *refRoot {
+			bad("root-differs-from-reference", "root %x, reference trie holding the same content %x", root[:6], refRoot[:6])
+		}
 	}
 	if fr := d.freshRoot(st); root != fr {
 		bad("root-history-dependent", "root %x, fresh trie built by sorted insertion of the same content %x", root[:6], fr[:6])
@@ -679,8 +729,10 @@ func (d *trieDriver) checkState(in, up *trieInst, st *tState, res *trieRes, heav
 		if err != nil || !bytes.Equal(v, want) {
 			bad("get-mismatch", "Get(k%d) = %s, %v; content has %s", k, short(v), err, short(want))
 		}
-		if v2, e2 := up.get(d.keys[k]); e2 != nil || !bytes.Equal(v2, want) {
-			core.Fatal("reference trie get disagrees with the content map")
+		if up != nil {
+			if v2, e2 := up.get(d.keys[k]); e2 != nil || !bytes.Equal(v2, want) {
+				core.Fatal("reference trie get disagrees with the content map")
+			}
 		}
 	}
 	res.shape = fmt.Sprintf("%d-entries", n)
